@@ -69,7 +69,10 @@ def ts_to_date(timestamp):
 # Converts date to timestamp of the midnight in seconds, in the given timezone, or UTC by default.
 def date_to_ts(date, timezone=None):
   ts = (date - DATE_EPOCH).total_seconds()
-  return ts if not timezone else ts - timezone.offset(ts * 1000).total_seconds()
+  if not timezone:
+    return ts
+  # Use the offset in effect at the local midnight (it may differ from the one at UTC midnight).
+  return ts - timezone.dt_offset(EPOCH + timedelta(seconds=ts)).total_seconds()
 
 # Parses a datetime in the ISO format, YYYY-MM-DDTHH:MM:SS.mmmmmm+HH:MM. Most parts are optional;
 # see https://pypi.org/project/iso8601/ for details. Returns a timestamp in seconds.
